@@ -29,6 +29,9 @@ func runC03(r *Run) {
 	r.rule("C03.R5", "index-key freshness: the nonce handed to each created record is not invariant in a loop that creates several records; the secondary index keys identify a record uniquely", 3)
 	r.rule("C03.R6", "EndBlock order: the hold-releasing module precedes the delegation module", 1)
 	r.rule("C03.R7", "pending aggregates move with the record (C01 delta obligations of the exit path)", 4)
+	r.rule("C03.R8", "a pending record modified through an iterator helper is always written back; the share-zeroing after a full slash touches only the undelegatable share (pending amounts survive)", 3)
+	iteratorWriteBackRule(r, "C03.R8", map[string]bool{"IterateUndelegationsByStakerAndAsset": true, "IterateUndelegationsByOperator": true})
+	shareZeroingRule(r, "C03.R8")
 
 	uf := w.Fn("x/delegation/keeper", "Keeper.UndelegateFrom")
 	pd := w.Fn("x/assets/keeper", "Keeper.PerformDepositOrWithdraw")
